@@ -58,3 +58,45 @@ Check @Closed.cache_ok_nil.
 Print Assumptions C09_closed_every_schedule.
 Print Assumptions Closed.C09_any_schedule.
 Print Assumptions Closed.C09_root_minimax.
+
+(* ---- the same on the WIDE domain (ClosedWide.v, ClockCongr.v): with the half-move clock in the
+   key near the move-count draw (the code after the repair of D13), key determinacy holds wherever
+   no counter overflows and no third repetition is recorded ---- *)
+From ChessV Require ReachWide ClockCongr ClosedWide.
+
+Theorem C09_wide_every_schedule : forall T rook_t bishop_t depth b0 v m b1 c0 sch,
+  collision_free (Closed.searched T rook_t bishop_t b0) ->
+  1 <= depth -> ClosedWide.SoundC T rook_t bishop_t (N.to_nat depth) b0 ->
+  search T rook_t bishop_t depth b0 = SOk (v, m, b1) ->
+  ClosedWide.cache_okC T rook_t bishop_t (Closed.searched T rook_t bishop_t b0) c0 ->
+  let mx := maximize (turn b0) in
+  Search.mm T rook_t bishop_t (N.to_nat depth) b0 mx = Ok v /\
+  exists sch' ws,
+    snd (Interleave.run_sched SearchLink.skey SearchLink.skey_eqb (sch ++ sch')
+           (Interleave.root_pool board SearchLink.skey (SearchLink.children T rook_t bishop_t)
+              (SearchLink.leaf T rook_t bishop_t) I16_MIN I16_MAX SearchLink.mkkey
+              c0 (Nat.pred (N.to_nat depth)) (negb mx) I16_MIN I16_MAX
+              (SearchLink.children T rook_t bishop_t b0)))
+      = map Interleave.Ret ws /\
+    v = (if mx then fold_left Z.max ws I16_MIN else fold_left Z.min ws I16_MAX).
+Proof. exact ClosedWide.C09_wide. Qed.
+
+Theorem C09_key_det_clock : forall T rook_t bishop_t (S : board -> Prop) d b1 b2 alpha beta,
+  collision_free S -> S b1 -> S b2 -> ClockCongr.searchable' d b1 -> ClockCongr.searchable' d b2 ->
+  hash b1 = hash b2 -> maximize (turn b1) = maximize (turn b2) ->
+  SearchLink.clock_tag b1 d = SearchLink.clock_tag b2 d ->
+  ab_value T rook_t bishop_t d b1 alpha beta (maximize (turn b1))
+  = ab_value T rook_t bishop_t d b2 alpha beta (maximize (turn b2)).
+Proof. exact ClockCongr.ab_key_det_clock. Qed.
+
+Check @ClosedWide.C09w_any_schedule.
+Check @ClosedWide.C09w_root_minimax.
+Check @ClosedWide.cache_okC_nil.
+Check @ClosedWide.soundCb_spec.
+Check ClosedWide.SoundC_demo.
+Check @ClockCongr.ab_value_congr_eqclock.
+
+Print Assumptions C09_wide_every_schedule.
+Print Assumptions C09_key_det_clock.
+Print Assumptions ClosedWide.C09w_any_schedule.
+Print Assumptions ClosedWide.C09w_root_minimax.
